@@ -2,7 +2,7 @@
     Only [ExtrOcamlBasic] (bool, option, list, prod, unit, sumbool -> OCaml natives); [N], [positive],
     [comparison], [sum] stay the extracted inductive types; no [Extract Constant]. *)
 From Coq Require Import Extraction ExtrOcamlBasic NArith List.
-From PV Require Import Names.NameModel Base.Order Base.CutDef DD.DDModel Marker.Concrete.
+From PV Require Import Names.NameModel Base.Order Base.CutDef DD.DDModel Marker.Concrete Marker.Expr.
 Extraction Language OCaml.
 Separate Extraction
   N.add N.mul N.div_eucl N.eqb N.of_nat
@@ -10,4 +10,5 @@ Separate Extraction
   NameModel.spec_norm NameModel.dist_info NameModel.spec_dist_info
   Concrete.m_and Concrete.m_or Concrete.m_not Concrete.m_disjoint Concrete.m_eval Concrete.m_wfb Concrete.m_eqb
   Concrete.m_simplify_extras Concrete.m_eval_extras Concrete.m_val_cmp Concrete.m_var_cmp
-  Concrete.substring Concrete.is_range.
+  Concrete.substring Concrete.is_range
+  Expr.expression Expr.spec_range Expr.normalize_spec Expr.strip.
